@@ -22,6 +22,7 @@ WT = "/tmp/confirm_wt"
 TGT = "/tmp/confirm_tgt"
 OUT = "/tmp/seed_%s_out" % prop
 ENV = dict(os.environ, CARGO_NET_OFFLINE="true", CARGO_TARGET_DIR=TGT)
+SEL = os.environ.get("DEMO_SEL", "--lib")
 
 
 def sh(cmd, **kw):
@@ -55,13 +56,13 @@ meta = {"property": prop, "change": os.path.basename(change)}
 # 1. demo without the change
 reset()
 apply(demo)
-rc, res, log = run_tests("-p %s --lib %s" % (crate, filt))
+rc, res, log = run_tests("-p %s %s %s" % (crate, SEL, filt))
 ran = {k: v for k, v in res.items() if v != "ignored"}
 meta["demo_without_change"] = ran
 assert ran and all(v == "ok" for v in ran.values()), "demo does not pass without the change: %s\n%s" % (ran, log[-2000:])
 # 2. demo with the change
 apply(change)
-rc, res, log = run_tests("-p %s --lib %s" % (crate, filt))
+rc, res, log = run_tests("-p %s %s %s" % (crate, SEL, filt))
 ran2 = {k: v for k, v in res.items() if v != "ignored"}
 meta["demo_with_change"] = ran2
 assert any(v == "FAILED" for v in ran2.values()), "demo does not fail with the change: %s\n%s" % (ran2, log[-2000:])
@@ -86,7 +87,7 @@ os.makedirs(dst, exist_ok=True)
 sh("cp %s %s/patch.diff && cp %s %s/demo.diff" % (change, dst, demo, dst))
 meta["confirmed"] = True
 meta["ran"] = [
-    "cargo test -p %s --lib %s with demo only (pass), with demo + change (fail)" % (crate, filt),
+    "cargo test -p %s %s %s with demo only (pass), with demo + change (fail)" % (crate, SEL, filt),
     "cargo test -p scylla -p scylla-cql -p scylla-cql-core --lib --no-fail-fast with the change only: result set identical to the unmodified tree" if not skip_suite else "suite comparison skipped",
 ]
 json.dump(meta, open(os.path.join(dst, "meta.json"), "w"), indent=1)
